@@ -19,6 +19,8 @@ import (
 	"os"
 	"runtime/debug"
 	"sync"
+	"sync/atomic"
+	"time"
 )
 
 // Op is one operation: a name and fixed-type integer arguments.
@@ -124,6 +126,34 @@ func Exec(s Sys, op Op) (r Res) {
 	return r
 }
 
+// Hung is set once an operation of the code under test did not return within
+// Watchdog (an endless loop, e.g. over a list that has become cyclic). The
+// operation is recorded as panicked - no specification allows that outcome -,
+// its goroutine is abandoned, and explorers stop expanding so that the run
+// ends promptly.
+var (
+	Hung     atomic.Bool
+	Watchdog = 10 * time.Second
+)
+
+// guarded runs f on its own goroutine and reports whether it returned in time.
+func guarded(f func()) bool {
+	done := make(chan struct{})
+	go func() {
+		defer close(done)
+		f()
+	}()
+	t := time.NewTimer(Watchdog)
+	defer t.Stop()
+	select {
+	case <-done:
+		return true
+	case <-t.C:
+		Hung.Store(true)
+		return false
+	}
+}
+
 // Safe runs f and reports whether it panicked.
 func Safe(f func()) (panicked bool) {
 	defer func() {
@@ -138,6 +168,15 @@ func Safe(f func()) (panicked bool) {
 // Replay executes path on a fresh instance and returns the record of the
 // last operation (result and projection).
 func (e *Explorer) Replay(path []Op) (Res, any) {
+	var r Res
+	var pr any
+	if !guarded(func() { r, pr = e.replay(path) }) {
+		return Res{P: true, S: []int{}}, e.ZeroProj
+	}
+	return r, pr
+}
+
+func (e *Explorer) replay(path []Op) (Res, any) {
 	s := e.New()
 	var r Res
 	for i, op := range path {
@@ -235,7 +274,7 @@ func (e *Explorer) exploreShard(file string, shard, shards int) (lines, leaves, 
 		var nl []*pnode
 		for _, nd := range level {
 			var kids []int
-			if !nd.term && !nd.res.P {
+			if !nd.term && !nd.res.P && !Hung.Load() {
 				ops := e.Ops(nd.path)
 				var terms []Op
 				if e.Term != nil && len(nd.path) > 0 {
@@ -329,10 +368,18 @@ func (ls *LinearSet) Run(s Sys, gen func(step int) (Op, bool)) (steps int, panic
 		if !ok {
 			break
 		}
-		r := Exec(s, op)
+		var r Res
 		var pr any = ls.zero
-		if !r.P {
-			pr = s.Proj()
+		if Hung.Load() {
+			break
+		}
+		if !guarded(func() {
+			r = Exec(s, op)
+			if !r.P {
+				pr = s.Proj()
+			}
+		}) {
+			r, pr = Res{P: true, S: []int{}}, ls.zero
 		}
 		if op.A == nil {
 			op.A = []int{}
@@ -446,4 +493,83 @@ func (ss *StarSet) Close() ([]string, error) {
 		fh.Close()
 	}
 	return ss.files, nil
+}
+
+// Trie collects event sequences (one per explored schedule) and writes them as
+// a tree-shaped trace: one node per distinct prefix, so the validator examines
+// a shared prefix once.
+type Trie struct {
+	root *trieNode
+	n    int
+	seqs int
+}
+
+type trieNode struct {
+	op   Op
+	kids map[string]*trieNode
+	ord  []string
+}
+
+// NewTrie starts an empty trie.
+func NewTrie() *Trie {
+	return &Trie{root: &trieNode{op: Op{N: "root", A: []int{}}, kids: map[string]*trieNode{}}, n: 1}
+}
+
+// Insert adds one sequence; it reports whether the sequence was new.
+func (t *Trie) Insert(seq []Op) bool {
+	cur, fresh := t.root, false
+	for _, o := range seq {
+		if o.A == nil {
+			o.A = []int{}
+		}
+		b, _ := json.Marshal(o)
+		k := string(b)
+		nx, ok := cur.kids[k]
+		if !ok {
+			nx = &trieNode{op: o, kids: map[string]*trieNode{}}
+			cur.kids[k] = nx
+			cur.ord = append(cur.ord, k)
+			t.n++
+			fresh = true
+		}
+		cur = nx
+	}
+	if fresh {
+		t.seqs++
+	}
+	return fresh
+}
+
+// Nodes is the number of nodes including the root; Seqs the number of distinct sequences.
+func (t *Trie) Nodes() int { return t.n }
+func (t *Trie) Seqs() int  { return t.seqs }
+
+// Write emits the trie breadth first as a tree trace.
+func (t *Trie) Write(file string) error {
+	f, err := os.Create(file)
+	if err != nil {
+		return err
+	}
+	defer f.Close()
+	w := bufio.NewWriterSize(f, 1<<20)
+	defer w.Flush()
+	enc := json.NewEncoder(w)
+	level := []*trieNode{t.root}
+	next := 2
+	for len(level) > 0 {
+		var nl []*trieNode
+		for _, nd := range level {
+			kids := []int{}
+			for _, k := range nd.ord {
+				kids = append(kids, next)
+				next++
+				nl = append(nl, nd.kids[k])
+			}
+			if err := enc.Encode(Node{Op: nd.op, Res: Res{Ok: true, S: []int{}}, Proj: 0, Kids: kids}); err != nil {
+				return err
+			}
+		}
+		level = nl
+	}
+	return nil
 }
